@@ -141,6 +141,15 @@ pub fn run(ctx: &Ctx) -> CheckOutput {
                     JobOut { stats: st, viols: sink.take(), samples: vec![] }
                 }));
             }
+            if n <= 5 {
+                let spec = spec.clone();
+                jobs.push(Box::new(move || {
+                    let mut st = Stats::default();
+                    let sink = Sink::new();
+                    ref_tree::<f32>("C05", &spec, &Z5, (n + 3).min(6), &mut st, &sink, &|h, hf, v, out| oracle::<f32>(kind, n, h, hf, v, out));
+                    JobOut { stats: st, viols: sink.take(), samples: vec![] }
+                }));
+            }
             for alpha in [Z3.to_vec(), Z5.to_vec()] {
                 let spec = spec.clone();
                 jobs.push(Box::new(move || {
